@@ -19,8 +19,8 @@ from vt.monitors import forkserver, fsmon
 
 ID = 'C17'
 TIERS = {
-    'quick': dict(shards=16, files=7, real_every=60, watchdog_s=900),
-    'thorough': dict(shards=16, files=420, real_every=600, watchdog_s=7000),
+    'quick': dict(shards=16, files=40, real_every=60, watchdog_s=900),
+    'thorough': dict(shards=16, files=2500, real_every=600, watchdog_s=7000),
 }
 RULE = ('case = tabular file (CSV or parquet; int/float/bool/datetime/string/unicode columns, nulls) x one invocation: '
         'discover (-r/-R, output to file, to "-" or omitted, input from "-"), verify (-a/-f, -7, --epsilon, -t, against '
